@@ -23,8 +23,8 @@ from vsim.tape import Tape, mix
 from vsim.world import World
 
 ID = "C20"
-RUNS = {"quick": 1120, "thorough": 40000}
-WALL = {"quick": 1500, "thorough": 6 * 3600}
+RUNS = {"quick": 1120, "thorough": 24000}
+WALL = {"quick": 3600, "thorough": 8 * 3600}
 MIN_BUDGET = 120
 MIN_PER_SIG = 60
 
